@@ -35,6 +35,7 @@ import (
 
 	"github.com/kubewharf/kubebrain/pkg/backend"
 	"github.com/kubewharf/kubebrain/pkg/metrics"
+	kbserver "github.com/kubewharf/kubebrain/pkg/server"
 	"github.com/kubewharf/kubebrain/pkg/server/brain"
 	"github.com/kubewharf/kubebrain/pkg/server/etcd"
 	"github.com/kubewharf/kubebrain/pkg/server/service"
@@ -324,6 +325,20 @@ type rolesSuite struct {
 	sc   *scen
 }
 
+// notLeaderStatusHandler is the real peer /status handler (pkg/server revisionHandler) of a node whose leader
+// election never campaigned, i.e. a non-leader.
+var (
+	notLeaderOnce sync.Once
+	notLeaderH    http.Handler
+)
+
+func notLeaderStatusHandler(b backend.Backend) http.Handler {
+	notLeaderOnce.Do(func() {
+		notLeaderH = kbserver.NewServer(b, getMetrics(), kbserver.Config{}).GetPeerHttpHandlers()["/status"]
+	})
+	return notLeaderH
+}
+
 func hostOf(url string) string { return strings.TrimPrefix(url, "http://") }
 
 func newRolesSuite(opts map[string]string) suite {
@@ -334,11 +349,9 @@ func newRolesSuite(opts map[string]string) suite {
 		b, _ := json.Marshal(&revision.LeaderRevision{Revision: 77})
 		w.Write(b)
 	}))
-	s.errSrv = httptest.NewServer(http.HandlerFunc(func(w http.ResponseWriter, r *http.Request) {
-		// what server.revisionHandler does on a node that is not leader
-		w.WriteHeader(400)
-		w.Write([]byte("i'm not leader, so can't tell you revision"))
-	}))
+	// a node that is not leader: the REAL /status handler of pkg/server (a server whose election never
+	// campaigned reports itself non-leader)
+	s.errSrv = httptest.NewServer(notLeaderStatusHandler(&recBackend{}))
 	l, err := net.Listen("tcp", "127.0.0.1:0")
 	if err != nil {
 		panic(err)
@@ -864,8 +877,8 @@ func (sc *scen) status(w http.ResponseWriter, req *http.Request) {
 	<-fl.replyGate
 	switch mode {
 	case "err":
-		w.WriteHeader(400)
-		w.Write([]byte("i'm not leader, so can't tell you revision"))
+		// the peer is not leader (any more): the real /status handler of pkg/server refuses
+		notLeaderStatusHandler(&recBackend{}).ServeHTTP(w, req)
 	case "down":
 		if hj, ok := w.(http.Hijacker); ok {
 			if c, _, err := hj.Hijack(); err == nil {
